@@ -248,7 +248,7 @@ func TypesWith(c explore.Chooser, opt TypesOpt) *prog.Program {
 	}
 
 	enumForm := s.Pick("enum.form", "iota-uint8", "explicit-int-unexported-middle", "string", "alias-member", "unexported-first", "other-file", "negative", "bool-backed", "float-backed", "dup-values")
-	unionForm := s.Pick("union.members", "2-structs", "1-struct", "named-int-member", "named-slice-member", "named-map-member", "pointer-receiver-non-member", "extra-marker-method", "enum-member", "member-in-other-file")
+	unionForm := s.Pick("union.members", "2-structs", "1-struct", "named-int-member", "named-slice-member", "named-map-member", "pointer-receiver-non-member", "extra-marker-method", "enum-member", "member-in-other-file", "member-by-embedding")
 	second := s.Pick("union.second", "none", "shares-member-different-prefix", "shares-member-same-prefix", "same-name-in-sub", "disjoint")
 	container := s.Pick("union.container", "named-slice", "named-map", "named-array", "none", "named-map-enum-key", "named-map-named-key")
 	alts := slotAlts()
@@ -373,6 +373,9 @@ func TypesWith(c explore.Chooser, opt TypesOpt) *prog.Program {
 		methods = append(methods, "func (*Ghost) isShape() {}")
 	case "enum-member":
 		methods = append(methods, "func (Color) isShape() {}")
+	case "member-by-embedding":
+		// no method of its own: it implements Shape through the method promoted from Square
+		add("type Disc struct {\n\tSquare\n\tTint string\n}")
 	}
 	secondField := ""
 	switch second {
